@@ -32,6 +32,49 @@ fn raw(c: &DayCase) -> Option<[Result<f64, ()>; 6]> {
     catch_unwind(AssertUnwindSafe(|| vh::raw_hours(&c.p, c.l, date_of_rd(c.rd), c.w.unwrap_or_default()))).ok()
 }
 
+/// The properties speak of the *reported* times.  Under `RoundSeconds::None` (their "unrounded
+/// seconds"), without offsets and without a policy, the clock time the public API reports for a
+/// prayer is the computed instant truncated to the second (modulo 24 h), and a missing instant is
+/// reported Invalid.  `which`: (index into the six raw hours, prayer).  Returns false after a failure.
+fn reported_is_computed(ctx: &mut Ctx, c: &DayCase, h: &[Result<f64, ()>; 6], which: &[(usize, Prayer)]) -> bool {
+    let plain = c.with(|p| {
+        p.round_seconds = RoundSeconds::None;
+        p.extreme_latitude_method = ExtremeLatitudeMethod::None;
+        for q in PRAYERS {
+            *p.minutes.get_mut(&q).unwrap() = 0.;
+        }
+    });
+    let d = match plain.run() {
+        Ok(d) => d,
+        Err(()) => {
+            ctx.fail(plain.to_json(), "panic".into(), "a result".into());
+            return false;
+        }
+    };
+    for (idx, pr) in which {
+        if (*pr == Prayer::Fajr || *pr == Prayer::Isha) && c.p.intervals[pr] != 0. {
+            continue; // defined by an interval, not by the computed instant
+        }
+        match (h[*idx], d[pr]) {
+            (Ok(t), Ok(rep)) => {
+                let want = (t.rem_euclid(24.) * 3600.).floor() as i64;
+                let got = secs(&rep);
+                let diff = (got - want).rem_euclid(86400);
+                if diff.min(86400 - diff) > 1 {
+                    ctx.fail(plain.to_json(), format!("{:?} reported {} but computed at {} (unrounded seconds)", pr, hms(got), hms(want)), "the reported time is the computed instant".into());
+                    return false;
+                }
+            }
+            (Err(()), Err(())) => {}
+            (a, b) => {
+                ctx.fail(plain.to_json(), format!("{:?}: computed {:?}, reported {:?}", pr, a.map(|x| (x * 3600.) as i64), b.map(|x| secs(&x))), "the reported entry is the computed one".into());
+                return false;
+            }
+        }
+    }
+    true
+}
+
 /// signed offset (hours) of `x` from Dhuhr, into (-12, 12]
 fn off(x: f64, dhuhr: f64) -> f64 {
     let mut d = (x - dhuhr) % 24.;
@@ -96,6 +139,9 @@ fn c01_one(ctx: &mut Ctx, c: &DayCase) {
             return;
         }
     }
+    if !reported_is_computed(ctx, c, &h, &[(2, Prayer::Dhuhr)]) {
+        return;
+    }
     let (ha, _, s) = hour_angle_alt(jd_of(c, dhuhr), lat(c), lon(c));
     let secs = ha * 240.;
     ctx.nontrivial(&format!("{}|{:.0}|{:.0}", c.rd, lat(c), lon(c)));
@@ -126,7 +172,7 @@ pub fn c01(ctx: &mut Ctx, tier: &str, r: &mut Rng, js: &[Value], reqs: &[String]
     if ra > 0.02 || dec > 0.02 || st > 0.02 {
         ctx.fail(json!({"kind": "oracle-self-test"}), format!("{} {} {}", ra, dec, st), "ephemerides (i) and (ii) agree within 0.02 deg".into());
     }
-    let n = if tier == "thorough" { 250000 } else { 5000 };
+    let n = sz!(tier, 5000, 250000);
     for i in 0..n {
         let m = r.pick(&METHODS).0;
         let l = gen_location(r, 90., 6.);
@@ -155,6 +201,9 @@ fn c02_one(ctx: &mut Ctx, c: &DayCase, r: &mut Rng) {
         }
     };
     let dhuhr = h[2].unwrap_or(12.);
+    if !reported_is_computed(ctx, c, &h, &[(1, Prayer::Shurooq), (4, Prayer::Maghrib)]) {
+        return;
+    }
     for (idx, name, sign) in [(1usize, "Shurooq", -1.), (4usize, "Maghrib", 1.)] {
         if let Ok(t) = h[idx] {
             let o = off(t, dhuhr);
@@ -219,7 +268,7 @@ pub fn c02(ctx: &mut Ctx, tier: &str, r: &mut Rng, js: &[Value], reqs: &[String]
         ctx.finish(json!({}));
         return;
     }
-    let n = if tier == "thorough" { 200000 } else { 4000 };
+    let n = sz!(tier, 4000, 200000);
     for i in 0..n {
         let mut c = plain(r.pick(&METHODS).0, gen_location(r, 60., 6.), boundary_rd(r));
         c.w = gen_weather(r);
@@ -242,6 +291,9 @@ fn c03_one(ctx: &mut Ctx, c: &DayCase) {
         }
     };
     let dhuhr = h[2].unwrap_or(12.);
+    if !reported_is_computed(ctx, c, &h, &[(0, Prayer::Fajr), (5, Prayer::Isha)]) {
+        return;
+    }
     let dd = dec_of_date(c);
     let af = c.p.angles[&Prayer::Fajr];
     let ai = c.p.angles[&Prayer::Isha];
@@ -364,7 +416,7 @@ pub fn c03(ctx: &mut Ctx, tier: &str, r: &mut Rng, js: &[Value], reqs: &[String]
         ctx.finish(json!({}));
         return;
     }
-    let n = if tier == "thorough" { 150000 } else { 3000 };
+    let n = sz!(tier, 3000, 150000);
     for i in 0..n {
         let mut c = plain(r.pick(&ANGLE_METHODS), gen_location(r, 60., 6.), boundary_rd(r));
         if i % 2 == 0 {
@@ -393,6 +445,9 @@ fn c04_one(ctx: &mut Ctx, c: &DayCase) {
         }
     };
     let dhuhr = hs[2].unwrap_or(12.);
+    if !reported_is_computed(ctx, &cs, &hs, &[(3, Prayer::Asr)]) || !reported_is_computed(ctx, &ch, &hh, &[(3, Prayer::Asr)]) {
+        return;
+    }
     let dd = dec_of_date(c);
     for (k, h, cc) in [(1., &hs, &cs), (2., &hh, &ch)] {
         if let Ok(t) = h[3] {
@@ -437,7 +492,7 @@ pub fn c04(ctx: &mut Ctx, tier: &str, r: &mut Rng, js: &[Value], reqs: &[String]
         ctx.finish(json!({}));
         return;
     }
-    let n = if tier == "thorough" { 150000 } else { 3000 };
+    let n = sz!(tier, 3000, 150000);
     for i in 0..n {
         let mut l = gen_location(r, 60., 6.);
         let rd = boundary_rd(r);
@@ -526,7 +581,7 @@ pub fn c05(ctx: &mut Ctx, tier: &str, r: &mut Rng, js: &[Value], reqs: &[String]
         ctx.finish(json!({}));
         return;
     }
-    let n = if tier == "thorough" { 200000 } else { 5000 };
+    let n = sz!(tier, 5000, 200000);
     for i in 0..n {
         let mut c = plain(r.pick(&NAMED8), gen_location(r, 60., 6.), boundary_rd(r));
         c.p.round_seconds = r.pick(&ROUNDS);
@@ -608,7 +663,7 @@ pub fn c06(ctx: &mut Ctx, tier: &str, r: &mut Rng, js: &[Value], reqs: &[String]
         ctx.finish(json!({}));
         return;
     }
-    let n = if tier == "thorough" { 200000 } else { 5000 };
+    let n = sz!(tier, 5000, 200000);
     for i in 0..n {
         let mut l = gen_location(r, 89.5, 6.);
         if i % 2 == 0 {
@@ -679,7 +734,7 @@ pub fn c13(ctx: &mut Ctx, tier: &str, r: &mut Rng, js: &[Value], reqs: &[String]
         ctx.finish(json!({}));
         return;
     }
-    let n = if tier == "thorough" { 200000 } else { 5000 };
+    let n = sz!(tier, 5000, 200000);
     for i in 0..n {
         let l = gen_location(r, 45., 4.);
         let mut rd = boundary_rd(r).clamp(rd_of(1600, 1, 2), rd_of(2399, 12, 30));
@@ -770,7 +825,7 @@ pub fn c20(ctx: &mut Ctx, tier: &str, r: &mut Rng, js: &[Value], reqs: &[String]
         ctx.finish(json!({}));
         return;
     }
-    let n = if tier == "thorough" { 100000 } else { 2500 };
+    let n = sz!(tier, 2500, 100000);
     for i in 0..n {
         // both configurations of a pair stay within 4 h of the meridian's own zone (DESIGN §14.3.8)
         let c = plain(r.pick(&METHODS).0, gen_location(r, 45., 3.), boundary_rd(r));
